@@ -469,22 +469,40 @@ Fixpoint run_for (s : fstate) (t : N) (locs : list N) (adds : list areply) : fst
     end
   end.
 
-(* `while self.has_pending_appointments() { let locators = ...clone(); for ... }` *)
-Fixpoint run_while (fuel : nat) (s : fstate) (t : N) (hint : list N) (adds : list areply) : fstate * run_res :=
+(* Retrier::pick_up_pending (fix D7): the retrier's (empty) set is fed with everything still pending for the tower *)
+Definition tower_pending (c : client) (t : N) : list N :=
+  match aget (c_towers c) t with Some su => su_pending su | None => [] end.
+Definition pick_up (s : fstate) (t : N) : fstate :=
+  match aget (f_mgr s) t with
+  | Some r => put_retrier s t {| r_status := r_status r; r_pending := set_union (r_pending r) (tower_pending (f_c s) t) |}
+  | None => s
+  end.
+
+(* `while self.has_pending_appointments() || self.pick_up_pending(&mut picked_up) { let locators = ...clone(); for ... }`:
+   once the set is empty the retrier picks up, at most once per run, what is still pending for the tower; only when nothing
+   is left does run return Ok *)
+Fixpoint run_while (fuel : nat) (picked : bool) (s : fstate) (t : N) (hint : list N) (adds : list areply) : fstate * run_res :=
   match fuel with
   | O => (s, RunFuel)
   | S f =>
     match retrier_pending s t with
-    | [] => (s, RunOk)
+    | [] =>
+      if picked then (s, RunOk)
+      else if poisoned s then (s, RunAbort (SClient Site_poisoned))
+      else let s1 := pick_up s t in
+           match retrier_pending s1 t with
+           | [] => (s1, RunOk)
+           | _ => run_while f true s1 t hint adds
+           end
     | p =>
       match run_for s t (reorder hint p) adds with
       | (s1, _, Some r) => (s1, r)
-      | (s1, adds1, None) => run_while f s1 t hint adds1
+      | (s1, adds1, None) => run_while f picked s1 t hint adds1
       end
     end
   end.
 
-Definition run_fuel (s : fstate) (t : N) : nat := S (S (length (retrier_pending s t))).
+Definition run_fuel (s : fstate) (t : N) : nat := S (S (S (S (length (retrier_pending s t))))).
 
 (* ONE call of Retrier::run *)
 Definition run_attempt (s : fstate) (t : N) (a : attempt) : fstate * run_res :=
@@ -493,7 +511,7 @@ Definition run_attempt (s : fstate) (t : N) (a : attempt) : fstate * run_res :=
   | None => (s, RunErr EAbandoned)
   | Some su =>
     if is_misbehaving (su_status su) then (s, RunErr EFlagged) else     (* fix 9d6311c *)
-    let go (s0 : fstate) := run_while (run_fuel s0 t) s0 t (at_order a) (at_adds a) in
+    let go (s0 : fstate) := run_while (run_fuel s0 t) false s0 t (at_order a) (at_adds a) in
     if is_subscription_error (su_status su) then
       let s1 := log_req s (ReqRegister t) in
       match at_reg a with
